@@ -41,6 +41,7 @@ type Contract struct {
 	PanicsIf  *SExp
 	Loops     map[int]*LoopAnn
 	Inline    bool
+	FreshOrNil []*SExp
 	AutoLoops bool
 	Trusted   bool
 	Sweep     bool
@@ -211,6 +212,9 @@ func (p *Prog) parseContract(x *SExp, pkg string) (*Contract, error) {
 			c.Escapes = append(c.Escapes, args...)
 		case "fresh":
 			c.Fresh = append(c.Fresh, args...)
+		case "fresh-or-nil":
+			// the result is nil or an object allocated by the callee
+			c.FreshOrNil = append(c.FreshOrNil, args...)
 		case "returns":
 			c.Returns = append(c.Returns, [2]*SExp{args[0], args[1]})
 		case "fresh-field":
@@ -690,6 +694,13 @@ func (p *Prog) elab(fx *Fx, x *SExp, env *Env) Val {
 		return tv(env.st.Row(kindByName(args[1].Atom), v.L[0]))
 	case "bigval":
 		v := p.elab(fx, args[0], env)
+		if os.Getenv("GVC_DEBUG_NAMES") != "" {
+			var ls []string
+			for _, l := range v.L {
+				ls = append(ls, l.Short())
+			}
+			fmt.Fprintf(os.Stderr, "[bigval %s] %v\n", args[0], ls)
+		}
 		return tv(env.st.LoadCell(KZ, v.L[0], v.L[1]))
 	case "subslice":
 		v := p.elab(fx, args[0], env)
